@@ -234,6 +234,15 @@ def check(ctx):
     r3.require_floor(10, "predicate disjuncts, literals and guarded deletion sites")
     rules.append(r3)
 
+    # the output directory every path is built from is the *effective* one: config.output_path is not read before the -o override (shared with C19-D3)
+    from c19 import check_no_early_reads
+    sub = Rule(r2.id, "D2", "", "")
+    check_no_early_reads(P, sub, fields={"output_path", "project_path"})
+    r2.instances += sub.instances
+    r2.discharged += sub.discharged
+    for v_ in sub.violations:
+        v_.rule = r2.id
+        r2.violations.append(v_)
     # ---------------------------------------------------------------- D5: init writes where it was pointed
     r5 = Rule("C16-D5-init-target", "D5",
               "in run_init the given configuration path is replaced by <project>/tauri.conf.json only under both tests of the documented default rule: "
